@@ -237,13 +237,22 @@ def run(ctx, report: Report) -> None:
                              f'structurally (bs4 tags are equal when their markup is equal), so two identical forms share one entry; '
                              f'the memo must be a list scanned with `is`')
     for short, cache in (('match_default', 'self.cached_default_forms'), ('match_indeterminate', 'self.cached_indeterminate_forms')):
-        fn = mmod.functions[f'CSSMatch.{short}']
-        loops = [n for n in walk_no_nested(fn) if isinstance(n, ast.For) and unparse(n.iter) == cache]
+        fn = mmod.functions.get(f'CSSMatch.{short}')
+        # the lookup may live in the matcher function or in a helper method it was moved to
+        loops = [(q_, n) for q_, f_ in mmod.functions.items() if q_.startswith('CSSMatch.') for n in walk_no_nested(f_)
+                 if isinstance(n, (ast.For, ast.comprehension)) and unparse(n.iter) == cache]
+        if fn is None and not loops:
+            r3.note(f'{short} and its memo {cache} do not exist on this tree: the look-alike rows of the pipeline table (R7) decide')
+            continue
+        fn = fn or mmod.functions[loops[0][0]]
         ok = False
-        if loops:
-            first = loops[0].target.elts[0].id if isinstance(loops[0].target, ast.Tuple) else None
-            ok = any(isinstance(c, ast.Compare) and isinstance(c.ops[0], ast.Is) and isinstance(c.left, ast.Name)
-                     and c.left.id == first for c in ast.walk(loops[0]))
+        for q_, lp in loops:
+            tvars = {x.id for x in ast.walk(lp.target) if isinstance(x, ast.Name)}
+            scope_ = lp if isinstance(lp, ast.For) else mmod.parents.get(lp)
+            if any(isinstance(c, ast.Compare) and isinstance(c.ops[0], (ast.Is, ast.IsNot)) and (
+                    {x.id for x in ast.walk(c.left) if isinstance(x, ast.Name)} | {x.id for x in ast.walk(c.comparators[0]) if isinstance(x, ast.Name)}) & tvars
+                    for c in ast.walk(scope_)):
+                ok = True
         r3.instance({'function': short, 'lookup_by_identity_scan': ok}, key=short)
         r3.obligation(ok)
         if not ok:
